@@ -557,9 +557,9 @@ def seq_method(interp, recv, name, args, kwargs):
         if enc in ("ascii", "us-ascii", "utf-8", "utf8", "charmap", "latin-1", "iso-8859-1", "latin1"):
             axiom("ascii/utf-8/latin-1 codecs are the identity on code points < 128")
             hi = 256 if enc in ("charmap", "latin-1", "iso-8859-1", "latin1") else 128
-            ok = mk_bool(all_elems(t, lambda c: z3.And(c >= 0, c < hi)))
+            ok = True if core.is_ascii(recv) else mk_bool(all_elems(t, lambda c: z3.And(c >= 0, c < hi)))
             if interp.truth(ok):
-                return SSeq(t, "str" if name == "decode" else "bytes")
+                return core._seq_value(t, "str" if name == "decode" else "bytes", core.is_ascii(recv))
             if enc in ("ascii", "us-ascii"):
                 raise (UnicodeDecodeError if name == "decode" else UnicodeEncodeError)(enc, b"" if name == "decode" else "", 0, 1, "ordinal not in range(128)")
             raise Unsupported("%s of non-ASCII symbolic text" % name)
@@ -659,16 +659,16 @@ def percent_format(interp, fmt, arg):
         return fmt % arg
     if is_sym(fmt):
         raise Unsupported("symbolic format string")
+    from .interp import MessageStr
     kind = kind_of(fmt)
     args = list(arg) if isinstance(arg, tuple) else [arg]
-    pct = ord("%")
     s = fmt if isinstance(fmt, bytes) else fmt.encode("latin-1")
+    conv = (lambda b: b) if kind == "bytes" else (lambda b: b.decode("latin-1"))
     out = []
     i = 0
     lit = bytearray()
-    from .interp import MessageStr
     while i < len(s):
-        if s[i] != pct:
+        if s[i] != 37:
             lit.append(s[i])
             i += 1
             continue
@@ -677,43 +677,37 @@ def percent_format(interp, fmt, arg):
         c = chr(s[i + 1])
         i += 2
         if c == "%":
-            lit.append(pct)
+            lit.append(37)
             continue
         if lit:
-            out.append(bytes(lit))
+            out.append(conv(bytes(lit)))
             lit = bytearray()
         if not args:
             raise TypeError("not enough arguments for format string")
         v = args.pop(0)
-        if c in "xd" and isinstance(v, (int, SInt)):
+        if c in "xd" and isinstance(v, (int, SInt)) and not isinstance(v, bool):
             if isinstance(v, int):
-                out.append((b"%" + c.encode()) % v)
+                out.append(conv((b"%" + c.encode()) % v))
             else:
                 axiom("%x / %d formatting of non-negative ints: minimal lower-case digits")
                 if not interp.truth(v >= 0):
                     raise Unsupported("%%%s of a possibly negative symbolic int" % c)
-                out.append(SSeq((hexenc() if c == "x" else decenc())(v.term), "bytes"))
-        elif c in "sb" and kind_of(v) == "bytes" and kind == "bytes":
+                out.append(SSeq((hexenc() if c == "x" else decenc())(v.term), kind, True))
+        elif c in "sb" and kind == "bytes" and kind_of(v) == "bytes":
             out.append(v)
-        elif c == "s" and kind == "str" and kind_of(v) == "str":
+        elif c == "s" and kind == "str" and kind_of(v) == "str" and not isinstance(v, MessageStr):
             out.append(v)
         elif kind == "str":
             return MessageStr("<?>")
         else:
             raise Unsupported("%%%s formatting of %r" % (c, type(v)))
     if lit:
-        out.append(bytes(lit))
+        out.append(conv(bytes(lit)))
     if args:
-        raise TypeError("not all arguments converted")
-    r = b""
+        raise TypeError("not all arguments converted during formatting")
+    r = conv(b"")
     for p in out:
-        if kind == "str" and isinstance(p, bytes):
-            p = p.decode("latin-1")
-        r = (r + p) if not (isinstance(r, bytes) and not r) else p
-    if kind == "str" and isinstance(r, bytes):
-        r = r.decode("latin-1")
-    if isinstance(r, SSeq) and r.kind != kind:
-        r = SSeq(r.term, kind)
+        r = r + p
     return r
 
 
